@@ -1,6 +1,6 @@
 //! C15 — human-readable formatters (integer parts): HumanCount, FormattedDuration, HumanDuration.
 use crate::common::*;
-use indicatif::{FormattedDuration, HumanCount, HumanDuration};
+use indicatif::{BinaryBytes, DecimalBytes, FormattedDuration, HumanBytes, HumanCount, HumanDuration, HumanFloatCount};
 use std::time::Duration;
 
 const UNITS_S: [u64; 6] = [365 * 86400, 7 * 86400, 86400, 3600, 60, 1];
@@ -13,8 +13,85 @@ fn group_ref(n: u64) -> String {
     out
 }
 
+/// what the statement promises for `HumanFloatCount`: the standard fixed-precision decimal of the
+/// value (taken from `std`), commas in the integer digits, trailing zeros of the fraction trimmed
+fn float_count_ref(x: f64, prec: usize) -> String {
+    let num = format!("{:.*}", prec, x);
+    if !x.is_finite() { return num; }
+    let (sign, rest) = match num.strip_prefix('-') { Some(r) => ("-", r), None => ("", num.as_str()) };
+    let (ip, fp) = rest.split_once('.').unwrap_or((rest, ""));
+    let mut out = String::from(sign);
+    for (i, c) in ip.chars().enumerate() { if i > 0 && (ip.len() - i) % 3 == 0 { out.push(','); } out.push(c); }
+    let fr = fp.trim_end_matches('0');
+    if !fr.is_empty() { out.push('.'); out.push_str(fr); }
+    out
+}
+
+/// `value unit` with the largest fitting prefix and two decimals (none for plain bytes); the value is
+/// compared with the exact quotient up to half a unit in the last place plus the rounding of u64 -> f64
+fn bytes_verdict(n: u64, got: &str, kilo: u128, prefixes: &[&str]) -> String {
+    let Some((num, unit)) = got.split_once(' ') else { return format!("FAIL bytes-unparsable {got}") };
+    let idx = if unit == "B" { Some(0) } else { prefixes.iter().position(|p| format!("{p}B") == unit).map(|i| i + 1) };
+    let Some(idx) = idx else { return format!("FAIL bytes-unit {got}") };
+    let Ok(val) = num.parse::<f64>() else { return format!("FAIL bytes-number {got}") };
+    let decimals = num.split_once('.').map_or(0, |(_, f)| f.len());
+    if (idx == 0 && decimals != 0) || (idx > 0 && decimals != 2) { return format!("FAIL bytes-decimals {got}"); }
+    let scale = kilo.pow(idx as u32) as f64;
+    let exact = n as f64 / scale;
+    let tol = if idx == 0 { 0.5 } else { 0.005 } + exact * 1e-12 + 1e-9;
+    if (val - exact).abs() > tol { return format!("FAIL bytes-value {n} -> {got}"); }
+    // largest fitting prefix: value below kilo unless the last prefix; at least 1 unless plain bytes.
+    // (n as f64 may round up to the next power for n > 2^53: accept a printed value of kilo.00 then)
+    if idx < 8 && val > kilo as f64 { return format!("FAIL bytes-prefix too small {n} -> {got}"); }
+    if idx > 0 && val < 1.0 - 1e-9 { return format!("FAIL bytes-prefix too large {n} -> {got}"); }
+    "ok".into()
+}
+
 pub fn run(seed: u64, tier: &str, out: &mut Out) {
     let mut rng = Rng::new(seed);
+    // HumanFloatCount: finite / infinite / NaN / negative values, precisions 0..=25 and the default
+    {
+        let mut xs: Vec<f64> = vec![0.0, -0.0, 0.5, -0.5, 1.5, 2.5, 0.05, 0.005, 999.5, 999.9995, 999.99995, 1234.7, -123.0, -123456.5, 1e3, 1e6 - 0.5,
+            1e15, 1e21, 1e22, 123456789.125, f64::MAX, f64::MIN, f64::MIN_POSITIVE, 5e-324, f64::INFINITY, f64::NEG_INFINITY, f64::NAN, -f64::NAN, 0.1 + 0.2, 1.0 / 3.0];
+        let nr = if tier == "thorough" { 400_000 } else { 6_000 };
+        for i in 0..nr {
+            xs.push(match i % 5 {
+                0 => f64::from_bits(rng.next()),
+                1 => (rng.next() >> rng.below(64)) as f64 / [1.0, 2.0, 8.0, 10.0, 1000.0, 65536.0][rng.below(6) as usize] * if rng.chance(1, 4) { -1.0 } else { 1.0 },
+                2 => { let k = rng.below(12) as i32; let base = 10f64.powi(k); base - [0.5, 0.05, 0.005, 0.0005, 0.00005, 0.5000001][rng.below(6) as usize] }
+                3 => (rng.below(2_000_000) as f64 - 1_000_000.0) / 1000.0,
+                _ => { let m = rng.below(1 << 20) as f64; m * 2f64.powi(rng.below(80) as i32 - 40) }
+            });
+        }
+        for (i, x) in xs.iter().enumerate() {
+            let prec: Option<usize> = if i % 7 == 0 { None } else { Some(*rng.pick(&[0usize, 0, 1, 2, 3, 4, 6, 10, 17, 25])) };
+            let x = *x;
+            let got = std::panic::catch_unwind(move || match prec { Some(p) => format!("{:.*}", p, HumanFloatCount(x)), None => format!("{}", HumanFloatCount(x)) });
+            let p = prec.unwrap_or(4);
+            let (obs, v) = match got {
+                Err(_) => ("panic".to_string(), format!("FAIL float-count-panic HumanFloatCount({x:e})")),
+                Ok(g) => { let r = float_count_ref(x, p); let v = if g == r { "ok".to_string() } else { format!("FAIL float-count HumanFloatCount({x:e}) precision {p} = {g} expected {r}") }; (g, v) }
+            };
+            // NaN payload/sign is not observable in the output: canonicalise for the model
+            let bits = if x.is_nan() { f64::NAN.to_bits() & !(1u64 << 63) } else { x.to_bits() };
+            out.emit(&format!("FMT fcount {bits} {p}"), &format!("{obs} ORACLE {v}"));
+        }
+    }
+    // HumanBytes / BinaryBytes / DecimalBytes: every prefix boundary +-1, random
+    {
+        let mut ns: Vec<u64> = vec![0, 1, 15, 999, 1000, 1001, 1023, 1024, 1025, 1500, u64::MAX, u64::MAX - 1, (1 << 53) - 1, 1 << 53, (1 << 53) + 1];
+        for k in [1000u64, 1024] { let mut p = k; loop { ns.extend([p - 1, p, p + 1, p + p / 2, p * 999 / 1000]); match p.checked_mul(k) { Some(q) => p = q, None => break } } }
+        let nr = if tier == "thorough" { 400_000 } else { 4_000 };
+        for _ in 0..nr { let bits = rng.below(64); ns.push(rng.next() >> bits); }
+        const BIN: [&str; 8] = ["Ki", "Mi", "Gi", "Ti", "Pi", "Ei", "Zi", "Yi"];
+        const DEC: [&str; 8] = ["k", "M", "G", "T", "P", "E", "Z", "Y"];
+        for n in ns {
+            let hb = format!("{}", HumanBytes(n)); let bb = format!("{}", BinaryBytes(n)); let db = format!("{}", DecimalBytes(n));
+            let v = if hb != bb { format!("FAIL bytes-alias HumanBytes != BinaryBytes for {n}") } else { bytes_verdict(n, &bb, 1024, &BIN) };
+            out.emit(&format!("FMT bytes binary {n}"), &format!("{bb} ORACLE {v}"));
+            out.emit(&format!("FMT bytes decimal {n}"), &format!("{db} ORACLE {}", bytes_verdict(n, &db, 1000, &DEC)));
+        }
+    }
     // HumanCount: every digit-count boundary +-1, random
     let mut counts: Vec<u64> = vec![0, 1, 9, u64::MAX, u64::MAX - 1];
     let mut p = 1u64; for _ in 0..19 { counts.extend([p - 1, p, p + 1]); p = p.saturating_mul(10); }
@@ -22,7 +99,7 @@ pub fn run(seed: u64, tier: &str, out: &mut Out) {
     for _ in 0..nrand { let bits = rng.below(64); counts.push(rng.next() >> bits); }
     for n in counts {
         let got = format!("{}", HumanCount(n));
-        let v = if got == group_ref(n) { "ok".to_string() } else { format!("FAIL HumanCount({n}) = {got}") };
+        let v = if got == group_ref(n) { "ok".to_string() } else { format!("FAIL count HumanCount({n}) = {got}") };
         out.emit(&format!("FMT count {n}"), &format!("{got} ORACLE {v}"));
     }
     // FormattedDuration
@@ -35,7 +112,7 @@ pub fn run(seed: u64, tier: &str, out: &mut Out) {
         let (days, hms) = match got.split_once("d ") { Some((d, r)) => (d.parse::<u64>().unwrap_or(u64::MAX), r.to_string()), None => (0, got.clone()) };
         let parts: Vec<u64> = hms.split(':').map(|x| x.parse().unwrap_or(u64::MAX)).collect();
         let back = if parts.len() == 3 && parts[0] < 24 && parts[1] < 60 && parts[2] < 60 { days as u128 * 86400 + parts[0] as u128 * 3600 + parts[1] as u128 * 60 + parts[2] as u128 } else { u128::MAX };
-        let v = if back == s as u128 && hms.len() == 8 { "ok".to_string() } else { format!("FAIL FormattedDuration({s}) = {got}") };
+        let v = if back == s as u128 && hms.len() == 8 { "ok".to_string() } else { format!("FAIL fdur FormattedDuration({s}) = {got}") };
         out.emit(&format!("FMT fdur {s}"), &format!("{got} ORACLE {v}"));
     }
     // HumanDuration: all unit boundaries and (n + 1/2) unit, +- 1 ms; random below 2^52 ns
@@ -57,14 +134,14 @@ pub fn run(seed: u64, tier: &str, out: &mut Out) {
         let n: u128 = it.next().unwrap().parse().unwrap_or(u128::MAX);
         let name = it.next().unwrap_or("").trim_end_matches('s').to_string();
         let unit = match name.as_str() { "year" => UNITS_S[0], "week" => UNITS_S[1], "day" => UNITS_S[2], "hour" => UNITS_S[3], "minute" => UNITS_S[4], "second" => 1, _ => 0 } as u128 * 1_000_000_000;
-        if unit == 0 { v = format!("FAIL unparsable {got}"); }
-        else if name != "second" && n < 2 { v = format!("FAIL one unit above seconds: {got}"); }
+        if unit == 0 { v = format!("FAIL hdur-unparsable {got}"); }
+        else if name != "second" && n < 2 { v = format!("FAIL hdur-one-unit above seconds: {got}"); }
         else {
             let value = n * unit;
-            if let Some((pd, pv)) = prev { if value < pv { v = format!("FAIL not monotone: {pd} ns -> {pv}, {d} ns -> {value}"); } }
+            if let Some((pd, pv)) = prev { if value < pv { v = format!("FAIL hdur-monotone: {pd} ns -> {pv}, {d} ns -> {value}"); } }
             // nearest count: |d - n*unit| <= unit/2 unless clamped to 2
             let diff = if d > value { d - value } else { value - d };
-            if v == "ok" && !(2 * diff <= unit || (n == 2 && name != "second")) { v = format!("FAIL not nearest: {d} ns -> {got}"); }
+            if v == "ok" && !(2 * diff <= unit || (n == 2 && name != "second")) { v = format!("FAIL hdur-nearest: {d} ns -> {got}"); }
             prev = Some((d, value));
         }
         out.emit(&format!("FMT hdur {d}"), &format!("{got} ORACLE {v}"));
